@@ -61,7 +61,8 @@ GENERATORS = (gen_c05_ranges,)
 TOL = F(1, 10 ** 9)
 OTOL = F(1, 10 ** 12)          # slack of the property checkers (one ulp of float rounding, not a modelling tolerance)
 CORPUS = fw.VERIF / 'corpus' / 'C05'
-CLAUSES = {1: 'head', 2: 'floor', 3: 'restart', 4: 'count', 5: 'monotone-bounded'}
+CLAUSES = {1: 'head', 2: 'floor', 3: 'restart', 4: 'count', 5: 'monotone-bounded', 6: 'lhs-range'}
+APPLIES = {5: (3, 4), 6: (2,)}
 K_TINJ = 'drawdown:injection-temperature-above-bottom-hole-temperature'
 K_DEPTH = 'bht:reservoir-depth-omitted'
 K_COUNT = 'redrill-count:cycle-divides-series-length'
@@ -106,17 +107,41 @@ def walk_cases(ctx, count):
         depth = dec(100, 15000, 0)
         if rnd.random() < 0.15 and n > 1:      # exactly on a layer interface / exactly at the capped depth
             depth = sum(ths[:rnd.randint(1, n - 1)])
-        out.append((n, Ts, Tmax, depth, gs, ths))
+        # fracture geometry / volume option / heat content inputs of the same Calculate call
+        geo = [F(rnd.randint(1, 4)), F(rnd.randint(1, 4)), dec(1000, 900000, 0), dec(50, 2000, 0), dec(50, 2000, 0),
+               F(rnd.choice([1, 2, 3, 10, 37, 149])), dec(5, 300, 0), dec(10 ** 6, 10 ** 9, 0), dec(2000, 3200, 0), dec(700, 1300, 0),
+               dec(20, 90, 1), dec(-5, 10, 1)]
+        out.append((n, Ts, Tmax, depth, gs, ths, geo))
     return out
 
 
+GEO_DEFAULT = [F(1), F(4), F(250000), F(500), F(500), F(10), F(50), F(125000000), F(2700), F(1000), F(40), F(0)]
+
+
+def _enum_by_int(enum, k):
+    return next(e for e in enum if e.int_value == k)
+
+
 def run_walk(m, case):
+    """-> (result, flat reservoir inputs incl. math.pi and math.sqrt(4/pi*area)); result ('V', 12 values) when Calculate ran to
+    the heat content, ('V', [Trock, depth]) when a water-property call raised after the walk, ('E', code) when the walk raised"""
+    from geophires_x.OptionList import FractureShape, ReservoirVolume
     from geophires_x.Reservoir import Reservoir
-    n, Ts, Tmax, depth, gs, ths = case
+    n, Ts, Tmax, depth, gs, ths, geo = case
+    shape, opt, area, h, wd, numb, sep, resvol, rho, cp, tinj, gain = geo
     r, w = m.reserv, m.wellbores
     r.numseg.value, r.Tsurf.value, r.Tmax.value, r.depth.value = n, float(Ts), float(Tmax), float(depth)
     r.gradient.value, r.layerthickness.value = [float(g) for g in gs], [float(t) for t in ths]
-    r.Trock.value, tinj = None, w.Tinj.value
+    r.fracshape.value, r.resvoloption.value = _enum_by_int(FractureShape, int(shape)), _enum_by_int(ReservoirVolume, int(opt))
+    r.fracarea.value = r.fracareacalc.value = float(area)
+    r.fracheight.value = r.fracheightcalc.value = float(h)
+    r.fracwidth.value = r.fracwidthcalc.value = float(wd)
+    r.fracnumb.value = r.fracnumbcalc.value = int(numb)
+    r.fracsep.value = r.fracsepcalc.value = float(sep)
+    r.resvol.value = r.resvolcalc.value = float(resvol)
+    r.rhorock.value, r.cprock.value, w.Tinj.value, w.tempgaininj.value = float(rho), float(cp), float(tinj), float(gain)
+    r.Trock.value = r.InitialReservoirHeatContent.value = None
+    flat = geo[:8] + [F(math.pi), F(math.sqrt(4 / math.pi * float(area)))] + geo[8:]
     try:
         Reservoir.Calculate.__wrapped__(r, m)
     except Exception as e:  # noqa: BLE001 - water-property errors after the walk are not the walk's
@@ -124,10 +149,12 @@ def run_walk(m, case):
             code = _impl_err(e)
             if code is None:
                 raise
-            return ('E', code)
-    finally:
-        w.Tinj.value = tinj
-    return ('V', [F(r.Trock.value), F(r.depth.value)])
+            return ('E', code), flat
+    if r.InitialReservoirHeatContent.value is None:
+        return ('V', [F(r.Trock.value), F(r.depth.value)]), flat
+    return ('V', [F(x) for x in (r.Trock.value, r.depth.value, r.averagegradient.value, r.fracheightcalc.value, r.fracwidthcalc.value,
+                                 r.fracareacalc.value, r.resvolcalc.value, r.fracnumbcalc.value, r.fracsepcalc.value, w.Tinj.value,
+                                 r.InitialReservoirHeatContent.value)] + [F(1)]), flat
 
 
 def spec_walk(n, Ts, Tmax, gs, ths, depth):
@@ -145,40 +172,46 @@ def spec_walk(n, Ts, Tmax, gs, ths, depth):
 
 def part_walk(ctx):
     m = _live_model(ctx, 2, 2)
-    cases = walk_cases(ctx, ctx.n(2500, 20000))
-    flat, keys, bad_spec, kept, tolerated = [], [], [], [], 0
+    cases = walk_cases(ctx, ctx.n(1500, 15000))
+    flat, part, keys, bad_spec, kept, tolerated = [], [], [], [], [], 0
     for c in cases:
-        n, Ts, Tmax, depth, gs, ths = c
-        res = run_walk(m, c)
+        n, Ts, Tmax, depth, gs, ths, geo = c
+        res, rflat = run_walk(m, c)
         inside = Ts < Tmax                        # for Tsurf >= Tmax the capped depth is <= 0 and the pinned code raises
         if res[0] == 'V' and not inside and abs(res[1][0] - spec_walk(n, Ts, Tmax, gs, ths, depth)) <= TOL * max(1, abs(Tmax)):
             tolerated += 1                         # a value where the model raises, and the value satisfies the property: not a defect
             continue
-        flat.append(([F(n), Ts, Tmax, depth] + gs + ths, res))
-        kept.append(c)
+        if res[0] == 'V' and len(res[1]) == 2:     # water properties raised after the walk: only the walk is compared
+            part.append(([F(n), Ts, Tmax, depth] + gs + ths, res, c))
+        else:
+            flat.append(([F(n), Ts, Tmax, depth] + gs + ths + rflat, res))
+            kept.append(c)
         if res[0] == 'V':
             tidx = sum(1 for j in range(1, n) if res[1][1] > sum(ths[:j]))
-            keys.append((n, tidx, res[1][1] < depth))
+            keys.append((n, tidx, res[1][1] < depth, int(geo[0]), int(geo[1])))
             want = spec_walk(n, Ts, Tmax, gs, ths, depth)
             if abs(res[1][0] - want) > TOL * max(1, abs(want)):
                 bad_spec.append((c, res, want))
-    failing = _kernel(ctx, 'walk-direct', ['Model.Gradient'], 'run_bht_direct', TOL, flat, 400)
+    failing = _kernel(ctx, 'walk-direct', ['Model.ResCalc'], 'run_rescalc', TOL, flat, 400)
+    pfail = _kernel(ctx, 'walk-direct-partial', ['Model.Gradient'], 'run_bht_direct', TOL, [(a, b) for a, b, _ in part], 400)
     cases = kept
-    ctx.count('walk-direct', evaluations=len(cases), nontrivial_keys=keys,
+    ctx.count('walk-direct', evaluations=len(cases) + len(part), nontrivial_keys=keys,
               outcome={'value': sum(1 for _, r in flat if r[0] == 'V'), 'error': sum(1 for _, r in flat if r[0] == 'E'),
+                       'walk only (water properties raised afterwards)': len(part),
                        'value outside the hypotheses, property holds': tolerated})
-    ctx.sample('walk-direct', {'n': cases[0][0], 'Tsurf': str(cases[0][1]), 'Tmax': str(cases[0][2]), 'depth_m': str(cases[0][3]),
-                               'gradients': [str(x) for x in cases[0][4]], 'thicknesses': [str(x) for x in cases[0][5]]})
     desc = lambda c: {'n': c[0], 'Tsurf': str(c[1]), 'Tmax': str(c[2]), 'depth_m': str(c[3]),
-                      'gradients': [str(x) for x in c[4]], 'thicknesses': [str(x) for x in c[5]]}
+                      'gradients': [str(x) for x in c[4]], 'thicknesses': [str(x) for x in c[5]], 'reservoir': [str(x) for x in c[6]]}
+    ctx.sample('walk-direct', desc(cases[0]))
     for c, res, want in bad_spec[:3]:
         ctx.violate('property', f'bht-walk:nseg={c[0]}',
                     f'Reservoir.Calculate: bottom-hole temperature {float(res[1][0])!r} is not Tsurf + integral of the gradients to the '
                     f'(capped) depth = {float(want)!r} for {desc(c)}', inp={'part': 'walk-direct', 'case': desc(c)},
                     expected=float(want), observed=float(res[1][0]))
-    for i in failing[:3]:
-        ctx.violate('corr', f'walk-direct:nseg={cases[i][0]}', f'Reservoir.Calculate and Model.Gradient.bht_code disagree on {desc(cases[i])}',
-                    inp={'part': 'walk-direct', 'case': desc(cases[i])}, observed=str(flat[i][1])[:200], expected='run_bht_direct (replay)')
+    for c, i in [(cases[i], i) for i in failing[:3]] + [(part[i][2], None) for i in pfail[:2]]:
+        ctx.violate('corr', f'walk-direct:nseg={c[0]}:shape={int(c[6][0])}:volopt={int(c[6][1])}',
+                    f'Reservoir.Calculate and Model.ResCalc.res_calc (walk, average gradient, fracture geometry, volume, heat content) '
+                    f'disagree on {desc(c)}', inp={'part': 'walk-direct', 'case': desc(c)},
+                    observed=str(flat[i][1])[:300] if i is not None else 'walk only', expected='run_rescalc (replay)')
 
 
 def history_cases(ctx, n, count):
@@ -265,9 +298,12 @@ def gen_input(rnd, resmodel, steps=QUICK_STEPS):
         p.append(('Drawdown Parameter', dec(0.00002, 0.0003, 6)))
     if resmodel in (1, 2):
         p += [('Fracture Shape', rnd.choice([1, 2, 3, 4])), ('Fracture Height', dec(300, 1200, 0)), ('Fracture Width', dec(300, 1200, 0)),
-              ('Number of Fractures', rnd.randint(5, 40)), ('Fracture Separation', dec(30, 120, 0)), ('Reservoir Volume Option', 1)]
+              ('Number of Fractures', rnd.randint(5, 40)), ('Fracture Separation', dec(30, 120, 0)), ('Fracture Area', dec(90000, 900000, 0)),
+              ('Reservoir Volume Option', rnd.choice([1, 1, 2, 3])), ('Reservoir Volume', rnd.choice(['1e9', '5e8']))]
     else:
-        p += [('Reservoir Volume Option', 4), ('Reservoir Volume', '1e9')]
+        p += [('Reservoir Volume Option', 4), ('Reservoir Volume', rnd.choice(['1e9', '5e8', '2.5e9']))]
+        if rnd.random() < 0.5:
+            p += [('Fracture Shape', rnd.choice([1, 2, 3, 4])), ('Fracture Height', dec(300, 1200, 0)), ('Fracture Area', dec(90000, 900000, 0))]
     n = rnd.choice([1, 1, 2, 2, 3, 4])
     p.append(('Number of Segments', n))
     for i in range(1, n + 1):
@@ -323,6 +359,22 @@ def bht_flat(S, ip):
     return flat
 
 
+def respost_flat(S, Trock, depth_m):
+    """flat input / expected output of run_respost from a snapshot (inputs are the Parameter values, outputs the calculated copies)"""
+    e = lambda a: S.v('reserv', a)
+    shape, opt = e('fracshape'), e('resvoloption')
+    if not (isinstance(shape, dict) and isinstance(opt, dict)) or shape.get('int') is None or opt.get('int') is None:
+        return None
+    tinj, gain = F(S.v('wellbores', 'Tinj')), F(S.v('wellbores', 'tempgaininj'))
+    area = F(e('fracarea'))
+    flat = [F(int(e('numseg'))), F(e('Tsurf')), F(e('gradient')[0]), Trock, depth_m, F(shape['int']), F(opt['int']), area,
+            F(e('fracheight')), F(e('fracwidth')), F(e('fracnumb')), F(e('fracsep')), F(e('resvol')), F(math.pi),
+            F(math.sqrt(4 / math.pi * float(area))), F(e('rhorock')), F(e('cprock')), tinj - gain, gain]
+    got = [F(e(a)) for a in ('averagegradient', 'fracheightcalc', 'fracwidthcalc', 'fracareacalc', 'resvolcalc', 'fracnumbcalc',
+                             'fracsepcalc')] + [tinj, F(e('InitialReservoirHeatContent')), F(1)]
+    return flat, got, f'shape={shape["int"]}:volopt={opt["int"]}'
+
+
 def _resmodel(S):
     v = S.v('reserv', 'resoption')
     return v.get('int') if isinstance(v, dict) else None
@@ -343,7 +395,7 @@ def all_inputs(ctx):
 
 def part_runs(ctx, inputs):
     results = runner.run_many(ctx, [t for _, t in inputs])
-    bht, spec, dd, orc, ran, sigs, amb, rep_bad, tvs = [], [], [], [], 0, [], 0, [], {}
+    bht, spec, dd, orc, ran, sigs, amb, rep_bad, tvs, rp = [], [], [], [], 0, [], 0, [], {}, []
     for (name, text), r in zip(inputs, results):
         if not r['snap'] or not snapshot.S(r['snap']).has('reserv', 'Trock'):
             ctx.count('runs', rejected={'no snapshot': 1})
@@ -366,6 +418,10 @@ def part_runs(ctx, inputs):
             if flat[1] < flat[2]:                   # Tsurf < Tmax: the model's domain (the pinned code raises otherwise)
                 bht.append((flat, ('V', got), ref))
             spec.append((flat, ('V', [Trock]), ref, 'Reservoir Depth' in ip))
+        # --- the rest of Reservoir.Calculate: average gradient, fracture geometry, volume option, heat content
+        rf = respost_flat(S, Trock, depth)
+        if rf is not None:
+            rp.append((rf[0], ('V', rf[1]), ref, rf[2]))
         # --- histories
         T, P = [F(x) for x in S.v('reserv', 'Tresoutput')], [F(x) for x in S.v('wellbores', 'ProducedTemperature')]
         n, red = len(T), int(S.v('wellbores', 'redrill'))
@@ -373,7 +429,7 @@ def part_runs(ctx, inputs):
         if len(P) != n:
             ctx.violate('property', f'length:model={m}', f'{name}: ProducedTemperature has {len(P)} entries, Tresoutput {n}', inp=ref)
             continue
-        orc.append(([F(int(m in (3, 4))), OTOL, maxdd, Trock, F(red), F(n)] + T + P, ('V', [F(1)] * 5), ref,
+        orc.append(([F(1 if m in (3, 4) else 2 if m == 2 else 0), OTOL, maxdd, Trock, Tinj, F(red), F(n)] + T + P, ('V', [F(1)] * 6), ref,
                     {'m': m, 'tinj_above': Tinj > Trock, 'p0_neg': P[0] < 0, 'n': n, 'r': red}))
         ramey = bool(S.v('wellbores', 'rameyoptionprod'))
         sigs.append((m, int(S.v('reserv', 'numseg')), bool(flat) and depth < flat[4] * 1000 * (1 - TOL), red > 0, ramey))
@@ -425,6 +481,11 @@ def part_runs(ctx, inputs):
         ctx.violate('corr', f'bht-run:nseg={int(bht[i][0][0])}', f'{bht[i][2]["name"]}: bottom-hole temperature / capped depth / normalised '
                     'layers of the run differ from Model.Gradient.bht_of_input', inp=bht[i][2],
                     observed=[float(x) for x in bht[i][1][1]], expected='run_bht_input (replay)')
+    for i in _kernel(ctx, 'rescalc-run-model', ['Model.ResCalc'], 'run_respost', TOL, [(a, b) for a, b, _, _ in rp], 200)[:3]:
+        ctx.violate('corr', f'rescalc-run:{rp[i][3]}', f'{rp[i][2]["name"]}: average gradient / fracture geometry / reservoir volume / injection '
+                    'temperature / initial heat content of the run differ from Model.ResCalc.res_post', inp=rp[i][2],
+                    observed=[float(x) for x in rp[i][1][1]], expected='run_respost (replay)')
+    ctx.count('rescalc-run', evaluations=len(rp), nontrivial_keys=[x[3] for x in rp])
     # the property itself: Trock = min(Tsurf + integral of gradients down to the depth the input denotes, Tmax)
     for i in _kernel(ctx, 'bht-run-spec', ['Model.Gradient'], 'run_bht_spec', TOL, [(a, b) for a, b, _, _ in spec], 200)[:6]:
         key = f'bht:nseg={int(spec[i][0][0])}' if spec[i][3] else K_DEPTH
@@ -444,8 +505,8 @@ def part_runs(ctx, inputs):
     ctx.count('timevector', evaluations=len(tvc))
     # the property clauses, evaluated by the Coq checkers on the series of the run
     failing = _kernel(ctx, 'oracle', ['Model.Redrill'], 'run_oracle_all', F(0), [(a, b) for a, b, _, _ in orc], 12)
-    ctx.count('oracle', evaluations=5 * len(orc))
-    pairs = [(i, cl) for i in failing[:40] for cl in CLAUSES if cl != 5 or orc[i][3]['m'] in (3, 4)]
+    ctx.count('oracle', evaluations=6 * len(orc))
+    pairs = [(i, cl) for i in failing[:40] for cl in CLAUSES if orc[i][3]['m'] in APPLIES.get(cl, (1, 2, 3, 4))]
     bad = _kernel(ctx, 'oracle-clauses', ['Model.Redrill'], 'run_oracle', F(0),
                   [([F(cl)] + orc[i][0][1:], ('V', [F(1)])) for i, cl in pairs], 8)
     broken = {pairs[j] for j in bad}
@@ -460,7 +521,7 @@ def part_runs(ctx, inputs):
             key = K_COUNT
         ctx.violate('property', key, f'{ref["name"]}: clause "{CLAUSES[cl]}" of C05 fails on the series of this run (reservoir model '
                     f'{info["m"]}, {info["n"]} steps, {info["r"]} redrillings reported)', inp=ref,
-                    observed={'Tres': [float(x) for x in a[6:6 + info['n']]][:40], 'P': [float(x) for x in a[6 + info['n']:]][:40]})
+                    observed={'Tres': [float(x) for x in a[7:7 + info['n']]][:40], 'P': [float(x) for x in a[7 + info['n']:]][:40]})
 
 
 def correspondence(ctx, proofs_ok=True):
@@ -517,13 +578,17 @@ def replay(ctx, data):
         print('Coq models (Gradient.bht_of_input, Drawdown.run_drawdown) agree with the run:', not any(v.kind == 'corr' for v in ctx.violations))
     elif inp.get('part') == 'walk-direct':
         c = inp['case']
-        case = (c['n'], F(c['Tsurf']), F(c['Tmax']), F(c['depth_m']), [F(x) for x in c['gradients']], [F(x) for x in c['thicknesses']])
-        res = run_walk(_live_model(ctx, 2, 2), case)
+        case = (c['n'], F(c['Tsurf']), F(c['Tmax']), F(c['depth_m']), [F(x) for x in c['gradients']], [F(x) for x in c['thicknesses']],
+                [F(x) for x in c.get('reservoir', GEO_DEFAULT)])
+        with contextlib.redirect_stdout(io.StringIO()):
+            res, rflat = run_walk(_live_model(ctx, 2, 2), case)
         flat = [F(case[0]), case[1], case[2], case[3]] + case[4] + case[5]
-        bad = _kernel(ctx, 'replay', ['Model.Gradient'], 'run_bht_direct', TOL, [(flat, res)])
-        print('Reservoir.Calculate ->', res if res[0] == 'E' else [float(x) for x in res[1]], '| model agrees:', not bad)
+        full = res[0] == 'E' or len(res[1]) > 2
+        bad = _kernel(ctx, 'replay', ['Model.ResCalc'], 'run_rescalc' if full else 'run_bht_direct', TOL, [(flat + (rflat if full else []), res)])
+        print('Reservoir.Calculate -> [Trock, depth, averagegradient, height, width, area, volume, number, separation, Tinj, heat content, 1]\n ',
+              res if res[0] == 'E' else [float(x) for x in res[1]], '| model agrees:', not bad)
         if res[0] == 'V' and case[1] < case[2] < 1000:
-            want = spec_walk(*case[:3], case[4], case[5], case[3])
+            want = spec_walk(case[0], case[1], case[2], case[4], case[5], case[3])
             print('Tsurf + integral of gradients, capped at Tmax =', float(want))
             if abs(want - res[1][0]) > TOL * max(1, abs(want)):
                 ctx.violate('property', 'bht-walk', 'bottom-hole temperature differs from the definition')
